@@ -95,6 +95,15 @@ CLAIMED = {
             "portforward back-pressure not exercised; open findings: keysym > 0x10FFFF, viewer-selected pixel format, concurrent "
             "--forever connections, and the two ZRLE decoder findings of C02",
             "Coq proof over the parser model + differential correspondence of both legs"),
+    "C18": ("Coq model of the whole loop: recorder formatting (shlex.quote included) -> shlex posix tokeniser -> build_command_list "
+            "-> _decodeKey; theorems (Properties/C18.v): every name the recorder can write for a keysym decodes back to that keysym "
+            "(reverse map checked over the whole regenerated table, raw characters by a no-single-character-name lemma), ...; the "
+            "real vnclog recorder writes a text-mode script file for EVERY representable keysym (quick: 0..0xFFFF, thorough: "
+            "0..0x10FFFF) and random key/pointer sessions, the real build_command_list compiles the file and a real VNCDoCLIClient "
+            "replays it under a virtual clock with several warp factors; key events, pointer positions (up to stuttering), button "
+            "presses and replay times >= recorded pauses / warp are judged; recorded text and the model's round trip compared",
+            "CR, surrogates and keysyms > 0x10FFFF are the open finding c18-file-newlines; CPython text-mode I/O trusted",
+            "Coq proof over the recorder/shlex/compiler/key-decoding models + exhaustive keysym sweep + differential correspondence"),
 }
 NOT_YET = "check not built yet in this session (planned Coq model in DESIGN.md §3); not claimed"
 
